@@ -184,6 +184,7 @@ pub fn gen_config(profile: &str, rng: &mut Rng, tier: Tier) -> Config {
 		w(&mut weights, "Crash", *r.pick(&[0, 0, 1]));
 		w(&mut weights, "ArmCrash", *r.pick(&[0, 0, 1]));
 		w(&mut weights, "SetFee", *r.pick(&[0, 2, 4]));
+		w(&mut weights, "ClosePrev", *r.pick(&[0, 6, 20]));
 	}
 	if profile == "justice" {
 		// a long off-chain history, nothing on chain before the cheat
@@ -496,6 +497,24 @@ pub fn next_action(wd: &World, rng: &mut Rng) -> Option<Action> {
 	if !corruptible.is_empty() && wd.onion.corruptions < 3 {
 		kinds.push(("Corrupt", weight(cfg, "Corrupt")));
 	}
+	// C07: a channel may also be closed by the previous commitment of either side while that is
+	// still unrevoked
+	let mut prev_closable: Vec<(usize, usize)> = Vec::new();
+	if cfg.profile == "onchain" && weight(cfg, "ClosePrev") > 0 {
+		for c in wd.chans.iter() {
+			if c.close_requested || !wd.chain.utxos.contains_key(&c.funding) {
+				continue;
+			}
+			for x in [c.a, c.b] {
+				if wd.previous_unrevoked(x, c.idx).is_some() {
+					prev_closable.push((x, c.idx));
+				}
+			}
+		}
+		if !prev_closable.is_empty() && !wd.nodes.iter().any(|x| x.gone) {
+			kinds.push(("ClosePrev", weight(cfg, "ClosePrev")));
+		}
+	}
 	// C06: in a third of the `justice` runs the cheat happens in the middle of the traffic instead
 	// of after quiescence
 	if cfg.profile == "justice" && wd.cheat.is_none() && wd.trace.len() > 60 && weight(cfg, "CheatEarly") > 0 {
@@ -596,6 +615,10 @@ pub fn next_action(wd: &World, rng: &mut Rng) -> Option<Action> {
 		"Gone" => Action::Gone { n: pick_live(rng) },
 		"Heal" => Action::Heal { n: *wd.partitioned.iter().next().unwrap() },
 		"CheatEarly" => return gen_cheat(wd, rng),
+		"ClosePrev" => {
+			let (n, chan) = *rng.pick(&prev_closable);
+			Action::ClosePrev { n, chan }
+		},
 		"Corrupt" => {
 			let (f, t) = *rng.pick(&corruptible);
 			Action::Corrupt { from: f, to: t, kind: rng.below(4) as u8, bit: rng.next_u64() as u32 }
